@@ -262,21 +262,27 @@ def run_sepsum(case, drv) -> Outcome:
     for _ in range(rng.randint(2, 3)):
         shape = [rng.randint(1, 3) for _ in range(rng.randint(1, 2))]
         cls = rng.choice(['L1Norm', 'L2NormSquared', 'ZeroFunctional', 'L1NormViewAsReal'])
-        fs.append(getattr(F, cls)(weight=rng.choice([1.0, 2.0]), target=rand_tensor(rng, shape), divide_by_n=rng.random() < 0.5))
+        g = getattr(F, cls)(weight=rng.choice([1.0, 2.0]), target=rand_tensor(rng, shape), divide_by_n=rng.random() < 0.5)
+        if rng.random() < 0.5:
+            g = rng.choice([0.5, 3.0]) * g  # scaled component: (a f).prox(x, s) = f.prox(x, a s), conj likewise
+        fs.append(g)
         xs.append(rand_tensor(rng, shape, rng.random() < 0.5))
     s = fs[0] | fs[1]
     for g in fs[2:]:
         s = s | g
     sigma = rng.choice([0.5, 2.0])
+    if rng.random() < 0.6:
+        sigma = torch.tensor(sigma, dtype=torch.float64)  # one tensor handed to every component
     viol = None
     (val,) = s(*xs)
     want = sum(g(xi)[0] for g, xi in zip(fs, xs, strict=True))
     if not close(val, want):
         viol = {'signature': 'sepsum:value', 'what': 'separable sum value != sum of values'}
+    fresh = (lambda: sigma.clone()) if torch.is_tensor(sigma) else (lambda: sigma)
     ps = s.prox(*xs, sigma=sigma)
     cs = s.prox_convex_conj(*xs, sigma=sigma)
     for g, xi, pi, ci in zip(fs, xs, ps, cs, strict=True):
-        if not close(pi, g.prox(xi, sigma)[0]) or not close(ci, g.prox_convex_conj(xi, sigma)[0]):
+        if not close(pi, g.prox(xi, fresh())[0]) or not close(ci, g.prox_convex_conj(xi, fresh())[0]):
             viol = viol or {'signature': 'sepsum:prox', 'what': 'separable sum prox != tuple of individual proxes'}
     return Outcome(key=('sepsum', len(fs), case['seed'] % 13), viol=viol, branches=['sepsum'])
 
